@@ -1085,6 +1085,9 @@ class PGMCompiler:
 
         :raise ValueError: Try to move null speed.
         """
+        if not all(np.isfinite(value) for value in (x, y, z, f) if value is not None):
+            raise ValueError('Try to write NaN or infinite values to the G-Code file. Check the input parameters.')
+
         args = []
         if x is not None:
             args.append(f'X{x:.{self.output_digits}f}')
